@@ -2320,10 +2320,13 @@ impl Scenario for C09 {
          might - BOM, XML declaration, DOCTYPE, comments, single quotes, attribute order, character references, \
          namespace prefix, both empty-element forms, CR LF, wrapped base64 - no panic; equal/different/rejected \
          counted), class G (one attribute value replaced by a hostile one: wrong length, out-of-range numbers, \
-         multi-byte characters as text or character references sized so that byte and character counts disagree - \
-         no panic) or class D (the document taken over at a structural position \
-         by an endless hostile run with the bytes-pulled monitor armed). The sweep walks document kind x \
-         position (10) x hostile kind (17) deterministically. evaluations = parses/writes executed; \
+         multi-byte characters as text or character references sized so that byte and character counts disagree; or \
+         the text of a <publish> element replaced by Base 64 with a multi-byte character, stray padding or a foreign \
+         character around buffer multiples - no panic) or class D (the document taken over at a structural position \
+         by an endless hostile run with the bytes-pulled monitor armed; or two runs within one element: white space of \
+         1/4..9/10 of the limit in its start tag, then an endless run as its content, bound from the element start). \
+         The sweep walks document kind x position (10) x hostile kind (17), four cells at the 100 MB limit from the \
+         valid side, and element (4) x share (2) x second run (6) deterministically. evaluations = parses/writes executed; \
          distinct = distinct hash of (document bytes or prefix, fault kind, fault offset, chunk size) \
          counted in a bitmap (lower bound); a run is non-trivial if a library writer or parser ran."
     }
